@@ -42,7 +42,7 @@ func (Engine) Generate(r *core.Rng, property, tier string) *core.Plan {
 		if tier == "thorough" {
 			p.SetKnob("maxscen", 1200)
 		} else {
-			p.SetKnob("maxscen", 250)
+			p.SetKnob("maxscen", 160)
 		}
 		g.crashWorkload()
 	case "C18":
